@@ -377,11 +377,15 @@ class Ref:
             old = self._universe_now(e["orig"])
             self._uren = getattr(self, "_uren", {})
             self._uren[e["orig"]] = e["new"]
+            def ren(v):
+                if isinstance(v, Fraction) and abs(v) == old:
+                    return Fraction(e["new"]) * (1 if v > 0 else -1)
+                return v
             for x in D["cells"]:
                 for key in ("u", "fill"):
                     v = x[key]
-                    if isinstance(v, Fraction) and abs(v) == old:
-                        x[key] = Fraction(e["new"]) * (1 if v > 0 else -1)
+                    # a lattice fill array: the entries after the three index ranges are universe numbers
+                    x[key] = [ren(y) for y in v] if isinstance(v, list) else ren(v)
         elif k == "surface_constant":
             self.surfaces[e["orig"]]["constants"][e["index"]] = Fraction(e["value"])
         elif k == "density":
@@ -565,6 +569,14 @@ def c07_check(case, prog):
     be = se["blocks"] + [[]] * (3 - len(se["blocks"]))
     touched = touched_cards(bu, applied, exps)
     cell_edit = any(e["kind"] in _CELL_EDITS for e in applied)
+    # comments: every comment of a block is still there, in the same order (a wrapped comment is the same comment;
+    # which card a comment line between two cards belongs to is a convention of the reader, so by block)
+    for bi in range(3):
+        xu = [t for c in bu[bi] for t in spec.comments_of(c)]
+        xe = [t for c in be[bi] for t in spec.comments_of(c)]
+        if _cwords(xu) != _cwords(xe):
+            return {"kind": "comments-changed", "block": bi, "before": [t for t in xu if t not in xe][:5] or xu[:8],
+                    "after": [t for t in xe if t not in xu][:5] or xe[:8], "diffs": [["block %d" % bi, "comments"]]}
     for bi in range(3):
         cu_list = list(enumerate(bu[bi]))
         ce_list = list(be[bi])
@@ -579,11 +591,6 @@ def c07_check(case, prog):
                 bad = [t for t in spec.tokens(c.text)[1:] if not _tok_ok(t)]
                 if bad:
                     return {"kind": "token-fused", "card": c.text, "token": bad[0], "diffs": [["data", _first(c)]]}
-            cu_com = sorted(x for _, c in mod_u for x in spec.comments_of(c))
-            ce_com = sorted(x for c in mod_e for x in spec.comments_of(c))
-            if cu_com != ce_com:
-                return {"kind": "comments-changed", "card": "per-cell data cards", "before": cu_com, "after": ce_com,
-                        "diffs": [["data", "per-cell"]]}
         if len(cu_list) != len(ce_list):
             return {"kind": "card-count-changed", "block": bi, "before": [c.text for _, c in cu_list],
                     "after": [c.text for c in ce_list], "diffs": [["block", bi]]}
@@ -611,8 +618,6 @@ def _touched_card_check(cu, ce, bi, exps, applied):
     """tokens of an edited card other than the edited ones keep spelling and order; comments are kept"""
     tu = spec.tokens(cu.text, cell_geometry=(bi == 0))
     te = spec.tokens(ce.text, cell_geometry=(bi == 0))
-    if spec.comments_of(cu) != spec.comments_of(ce):
-        return {"kind": "comments-changed", "card": cu.text, "before": spec.comments_of(cu), "after": spec.comments_of(ce)}
     if tu == te or not tu or not te:
         return None
     head = re.match(r"^([*+]?)([A-Z]*)(\d+)$", tu[0])
@@ -845,7 +850,7 @@ def shrink_lines(case, failing, max_rounds=6):
             words = re.split(r"( +)", lines[i])
             j = len(words) - 1
             while j >= 2:
-                if words[j].strip() and not spec.is_comment_line(lines[i]):
+                if words[j].strip() and not spec.is_comment_line(lines[i]) and "fill" not in lines[i].lower():
                     cand_words = words[:j - 1] + words[j + 1:]
                     cand_line = "".join(cand_words)
                     cand = dict(cur, text=eol.join(lines[:i] + [cand_line] + lines[i + 1:]))
